@@ -933,6 +933,82 @@ func run(args []string) error {
 	}
 	hist.Add(fmt.Sprintf("limb-boundary=%d", len(caseJSON["limb"])))
 
+	// ---- abscissae just below p (x = p - delta, all limbs near their maximum): the combined double scalar
+	//      multiplication of recovery / verification on such points, many random scalars each
+	//      (finding 234fc8ec9: Field.Normalize dropped a carry; ECmult left the curve for r = p-n-0x6cf, recid 2)
+	{
+		nNear := n
+		if nNear < 120 {
+			nNear = 120
+		}
+		for j := 0; j < nNear; j++ {
+			delta := int64(1 + g.r.Intn(4000))
+			x := add(bigP, -delta)
+			r := new(big.Int).Sub(x, bigN) // x = r + n, recid bit 1 set
+			sg := sigT{r, g.validKey(), 2 + g.r.Intn(2)}
+			msg := b32(g.rand256())
+			sb := sg.bytes()
+			var rec []byte
+			var code int
+			obs := ""
+			if Guard(func() { rec, code = secp.RecoverPublicKey(sb[:64], msg, sg.recid) }) {
+				obs = "panic"
+			} else if rec != nil {
+				obs = fmt.Sprintf("%d %s", code, hx(rec))
+			} else {
+				obs = fmt.Sprintf("%d nil", code)
+			}
+			emit("nearp", "recover", []string{hx(msg), hx(sb)}, obs, map[string]interface{}{"kind": "x=p-delta", "delta": delta}, true)
+			// the same point as a public key: textbook verification of an arbitrary (r, s) computes u1*G + u2*Q
+			pkb := append([]byte{byte(2 + g.r.Intn(2))}, b32(x)...)
+			if secp.PubkeyIsValid(pkb) == 1 {
+				var xy secp.XY
+				if err := xy.ParsePubkey(pkb); err != nil {
+					return err
+				}
+				var sig secp.Signature
+				rr, ss, mm0 := g.validKey(), g.validKey(), g.rand256()
+				sig.R.Set(rr)
+				sig.S.Set(ss)
+				var mm secp.Number
+				mm.Set(mm0)
+				var ok bool
+				o2 := "0"
+				if Guard(func() { ok = sig.Verify(&xy, &mm) }) {
+					o2 = "panic"
+				} else if ok {
+					o2 = "1"
+				}
+				emit("nearp", "verify", []string{hx(pkb), hn(mm0), hn(rr), hn(ss)}, o2, map[string]interface{}{"kind": "Q.x=p-delta"}, true)
+			}
+		}
+		// regression corpus: inputs on which the unchanged tree once disagreed with the model
+		for _, c := range [][2]string{
+			{"db09689a07ca3af27eea908333405aaeeff7dff7e90345803a6fc80acd012e50", // 234fc8ec9 Normalize carry
+				"000000000000000000000000000000014551231950b75fc4402da1722fc9b41f34e758cbeab919fa62a77a22e8f516170015541678ea0fc3878b84e44808165e02"},
+		} {
+			msg, _ := hex.DecodeString(c[0])
+			sb, _ := hex.DecodeString(c[1])
+			var rec []byte
+			var code int
+			obs := ""
+			if Guard(func() { rec, code = secp.RecoverPublicKey(sb[:64], msg, int(sb[64])) }) {
+				obs = "panic"
+			} else if rec != nil {
+				obs = fmt.Sprintf("%d %s", code, hx(rec))
+			} else {
+				obs = fmt.Sprintf("%d nil", code)
+			}
+			emit("regress", "recover", []string{hx(msg), hx(sb)}, obs, map[string]interface{}{"kind": "regression corpus"}, true)
+			var rec2 []byte
+			if Guard(func() { rec2 = secp256k1.RecoverPubkey(msg, sb) }) {
+				emit("regress", "recover", []string{hx(msg), hx(sb)}, "RecoverPubkey:panic", map[string]interface{}{"kind": "regression corpus"}, true)
+			}
+			_ = rec2
+		}
+		hist.Add(fmt.Sprintf("near-p=%d", len(caseJSON["nearp"])))
+	}
+
 	// ---- deterministic sweep over curve points with a tiny ordinate (|y| < 120): parsing, validity and
 	//      multiplication by +-1, +-2 (results are again such points).  The field code holds these
 	//      ordinates in non-canonical form at various places (findings fixed in 04aa20fed, 0989034ad).
